@@ -27,6 +27,22 @@ def tasks(tier, seed):
     ts += SC.session_tasks(tier, [], 'session', None, early=(0, 1, 3, 5), nobj=7, scaled=True,
                            kinds={'memory', 'uncaught_exception', 'terminate', 'deadlock', 'hang', 'limit', 'leak'})
     ts += SC.big_session_tasks(tier, 'session', None, kinds={'memory', 'uncaught_exception', 'terminate', 'deadlock', 'hang', 'limit', 'leak'})
+    # lemma of the monitor reduction: no lost wake-up in the stream (every consumer operation that frees buffer space
+    # notifies the waiting producer, every producer operation that makes data / the end available notifies the consumer)
+    import c15
+    for t in c15.tasks(tier, seed)[0]:
+        if t.tid == 'stream.first_setBufferSize':
+            t.tid = 'wakeup.stream'
+            t.opts = dict(t.opts, msg_filter='notified')
+            t.kinds = {'assert'}
+            ts.append(t)
+    import c16
+    for t in c16.tasks(tier, seed)[0]:
+        if t.tid in ('queue.first_op_0', 'queue.first_op_1'):
+            t.tid = 'wakeup.' + t.tid
+            t.opts = dict(t.opts, msg_filter='vp_notified')
+            t.kinds = {'assert'}
+            ts.append(t)
     meta = dict(
         level='model_checking',
         explanation='Monitor reduction (DESIGN.md section 3): each stage takes its mutex for the whole method body (checked by '
